@@ -13,7 +13,7 @@ import random
 
 import z3
 
-from ..common import HarnessError, quiet
+from ..common import HarnessError, quiet, pmap
 from ..sat import Z, z3_check, definability_closure, not_exists_aux_z3, uniqueness_query, max_var, solve
 
 LEVEL = 'translation_validation'
@@ -111,7 +111,7 @@ def check_one(ctx, kind, k, vl):
                 ctx.note_inconclusive(f'{key} completeness {r}')
         # second opinion with z3 quantifiers (small circuits only)
         aux = sorted({abs(l) for c in clauses for l in c} - set(vl))
-        if len(aux) <= 60 and n <= 8:
+        if len(aux) <= 60 and n <= 6:
             qf = z3.ForAll([z.var(a) for a in aux], z3.Not(z3.And(F))) if aux else z3.Not(z3.And(F))
             r2, m2 = z3_check([ref, qf], ctx, timeout_ms=20000)
             cl_says = any(q == 'completeness' for q, _, _ in found)
@@ -158,7 +158,7 @@ def vacuity_guards(ctx):
 
 def run(ctx):
     thorough = ctx.tier == 'thorough'
-    nmax = 16 if thorough else 10
+    nmax = 20 if thorough else 10
     rnd = random.Random(ctx.seed)
     ctx.functions += ['core.generate.utility.combine_cnf_with_requests', 'core.cnf.CNF.assert_k_of_n',
                       'core.cnf.CNF._inequality_assertion', 'core.cnf.CNF._make_same_length',
@@ -171,16 +171,23 @@ def run(ctx):
     ctx.rule = ('every (n,k,relation,variable list) in the bound; non-trivial = relation neither always true nor '
                 'always false over the 2^n assignments (0<k<=n for EQ/LT, k<n for GT)')
     vacuity_guards(ctx)
-    for n in range(1, nmax + 1):
+    items = []
+    for n in range(nmax, 0, -1):
         for k in range(0, n + 4):
             for kind in KINDS:
                 for vl in varlists(n, rnd, thorough):
-                    nontrivial = (kind == 'EQ' and 0 <= k <= n) or (kind == 'LT' and 1 <= k <= n) or \
-                                 (kind == 'GT' and k < n)
-                    ctx.case(f'{kind}:{n}:{k}:{vl}', nontrivial)
-                    ctx.programs += 1
-                    clauses = check_one(ctx, kind, k, vl)
-                    if n == 3 and k == 2 and vl == [1, 2, 3]:
-                        ctx.sample({'relation': kind, 'k': k, 'vars': vl, 'clauses': len(clauses),
-                                    'query': 'CNF & not rel ; rel & D & not Rest ; CNF & CNF\' & a!=a\''})
+                    items.append((kind, k, vl))
+    pmap(ctx, _one, items)
     ctx.exhaustive = True
+
+
+def _one(sub, item):
+    kind, k, vl = item
+    n = len(vl)
+    nontrivial = (kind == 'EQ' and 0 <= k <= n) or (kind == 'LT' and 1 <= k <= n) or (kind == 'GT' and k < n)
+    sub.case(f'{kind}:{n}:{k}:{vl}', nontrivial)
+    sub.programs += 1
+    clauses = check_one(sub, kind, k, vl)
+    if n == 3 and k == 2 and vl == [1, 2, 3]:
+        sub.sample({'relation': kind, 'k': k, 'vars': vl, 'clauses': len(clauses),
+                    'query': "CNF & not rel ; rel & D & not Rest ; CNF & CNF' & a!=a'"})
